@@ -229,3 +229,24 @@ def identically_zero(ctx, term):
         return p.is_zero()
     except (TooBig, RecursionError, z3.Z3Exception):
         return False
+
+
+def normalized_term(ctx, term):
+    """z3 term of the normal form of `term` (None if normalisation is not possible)."""
+    try:
+        nz = Normalizer(ctx)
+        p = nz.reduce(nz.from_z3(z3.simplify(term)))
+        tot = None
+        for m, cf in p.d.items():
+            t = core._rv(cf)
+            for a, k in sorted(m):
+                base = nz.atoms[a]
+                if k < 0:
+                    base = ctx.inv(base)
+                    k = -k
+                for _ in range(k):
+                    t = t * base
+            tot = t if tot is None else tot + t
+        return tot if tot is not None else z3.RealVal(0)
+    except (TooBig, RecursionError, z3.Z3Exception, KeyError):
+        return None
